@@ -18,12 +18,13 @@ RULE = (
     "increasing size up to k): exactly one judgement per separable pair, none for any other pair, every listed "
     "judgement a true separation, canonical, of minimum size. 'Size limit k' is read as |C| <= k (the docstring's "
     "'longest set of conditions to investigate'). non-trivial = the graph has >=3 nodes and at least one pair is "
-    "separable only by a non-empty set; distinct by (graph, k, policy, return_all)."
+    "separable only by a non-empty set; distinct by (graph, k, policy, return_all). Plus d_separations(return_all=True) on "
+    "random ADMGs n=3..5: the yielded judgements must be exactly ALL separating (pair, C) with |C| <= k, each once."
 )
 ASSUMPTIONS = ["O3 (vmon/refgraph.py) Bayes-ball m-separation as the definition of separation",
                "k is an inclusive bound on the size of the conditioning set"]
 MIN_NONTRIVIAL = {"quick": 300, "thorough": 20000}
-REQUIRED = ["eval:get_conditional_independencies", "C15:sets-compared"]
+REQUIRED = ["eval:get_conditional_independencies", "C15:sets-compared", "C15:all-separations-compared"]
 EXHAUSTIVE = {"quick": "all labelled ADMGs on <=3 nodes x k in {None,0,1,2} x 2 policies x return_all on/off",
               "thorough": "all labelled ADMGs on <=4 nodes x k in {None,0,1,2,3} x 2 policies x return_all on/off"}
 TIMEOUT = {"quick": 900, "thorough": 7200}
@@ -136,6 +137,51 @@ def run_case(ctx, gd, k, pol, return_all):
                      "independencies": sorted(f"{j.left} _||_ {j.right} | {','.join(map(str, j.conditions))}" for j in res or [])})
 
 
+def run_all_separations(ctx, gd, k):
+    """d_separations(return_all=True) is the enumerator's raw material: it must yield EVERY separating (pair, C) with
+    |C| <= k exactly once and nothing else (driver-side comparison: the function is a generator)."""
+    from y0.algorithm.conditional_independencies import d_separations
+
+    g = gg.to_nx(gd)
+    ref = RG.from_nx(g)
+    kernel.LOG.reset_case({"graph": gd, "k": k, "all": True})
+    try:
+        got = list(d_separations(g, max_conditions=k, return_all=True))
+    except Exception as e:  # noqa: BLE001
+        kernel.violation(PROP, "total", f"d_separations(return_all=True) raised {type(e).__name__}: {e} on {gd}",
+                         case=kernel.LOG.case)
+        return
+    V = sorted(ref.V, key=str)
+    top = len(V) - 2 if k is None else min(k, len(V) - 2)
+    want = set()
+    for a, b in itt.combinations(V, 2):
+        rest = [v for v in V if v not in (a, b)]
+        for sz in range(0, top + 1):
+            for C in itt.combinations(rest, sz):
+                if b not in ref.m_connected_set(a, set(C)):
+                    want.add((frozenset((a, b)), frozenset(C)))
+    seen = [(frozenset((j.left, j.right)), frozenset(j.conditions)) for j in got]
+    kernel.count("C15:all-separations-compared")
+    problems = []
+    if len(seen) != len(set(seen)):
+        problems.append("a separation is listed twice")
+    miss, extra = want - set(seen), set(seen) - want
+    if miss:
+        p_, c_ = sorted(miss, key=str)[0]
+        problems.append(f"{len(miss)} separation(s) missing, e.g. {sorted(map(str, p_))} given {sorted(map(str, c_))}")
+    if extra:
+        p_, c_ = sorted(extra, key=str)[0]
+        problems.append(f"{len(extra)} listed judgement(s) are not separations within the limit, e.g. {sorted(map(str, p_))} "
+                        f"given {sorted(map(str, c_))}")
+    if any(not j.separated for j in got):
+        problems.append("a judgement with separated=False was yielded")
+    if problems:
+        kernel.violation(PROP, "all-separations", f"d_separations(k={k}, return_all=True) on {gd}: " + "; ".join(problems),
+                         case=kernel.LOG.case)
+    ctx.case(f"{gg.key(gd)}|{k}|all", len(gd["nodes"]) >= 3 and any(c for _, c in want),
+             sample={"graph": gd, "k": k, "separations": len(want)})
+
+
 def run_shard(ctx):
     install()
     mon_dsep.install()
@@ -168,6 +214,9 @@ def run_shard(ctx):
         run_case(ctx, gd, k, pol, rng.random() < 0.3)
         if i % 4 == 0:
             run_case(ctx, gg.permuted(gd, rng), k, pol, False)
+    for i in range(ctx.share({"quick": 600, "thorough": 10000}[ctx.tier])):
+        gd = gg.random_admg(rng, rng.choice([3, 4, 4, 5]))
+        run_all_separations(ctx, gd, rng.choice([None, 0, 1, 2, 3]))
 
 
 def replay(case):
@@ -179,6 +228,9 @@ def replay(case):
 
     gd = case["graph"]
     gd = {"nodes": gd["nodes"], "di": gd["di"], "bi": gd["bi"]}
+    if case.get("all"):
+        run_all_separations(_C(), gd, case.get("k"))
+        return
     ra = case.get("return_all", (case.get("kwargs") or {}).get("return_all", False))
     pol = case.get("policy") or "default"
     run_case(_C(), gd, case.get("k"), "len_lex" if "len_lex" in str(pol) else "default", bool(ra))
